@@ -15,7 +15,7 @@
    the CIQ theorems as explicit hypotheses (`exact solves`, `scalar rule`) and are checked numerically on
    the implementation by harness/c11.py (support only). *)
 From mathcomp Require Import all_ssreflect all_algebra.
-Require Import C11.Model C11.ProofsRefine C11.ProofsAny C11.ProofsExact C11.ProofsResidual C11.ProofsCIQ.
+Require Import C11.Model C11.ProofsRefine C11.ProofsAny C11.ProofsExact C11.ProofsResidual C11.ProofsLanczos C11.ProofsCIQ.
 Set Implicit Arguments.
 Unset Strict Implicit.
 Unset Printing Implicit Defensive.
@@ -223,6 +223,52 @@ Theorem C11_minres_output_residual (S : mr_settings R) (g : mr_args R) (M : nat 
     * (qget AR (scp st) q j
        * pbar (shifts_Q g) (size (g_rhs g)) (g_n g) (g_mm g) (g_value g) sh (g_eps g) q j (u_rhs u) k i).
 Proof. move=> np he ht hl hq hj hi hnz; exact: (minres_output_residual np he ht hl hq hj hi hnz). Qed.
+
+(* the orthogonality half of Paige-Saunders, as far as it goes without convergence theory: no preconditioner, linear
+   closure with a SYMMETRIC matrix, a column whose normalised rhs is not zero, and no Lanczos breakdown during the
+   first k bodies (the argument of beta_curr.clamp_min_(eps) is >= eps, i.e. the clamp is inactive).  Then the
+   Lanczos vectors z_1 .. z_{k+1} of the loop are orthonormal, and the squared norm of the TRUE residual of the k-th
+   iterate of every shifted system equals scale_prev_k^2: the code's scale term is the residual norm, which by
+   C11_scale_nonincreasing never grows.  (Behaviour at breakdown and minimality of the residual: NOT proved.) *)
+Section Orthogonality.
+Variables (Q C n : nat) (mm : cols R -> cols R) (value : option R) (shifts : qc R) (eps : R).
+Variable M : nat -> nat -> nat -> R.
+Variables (j : nat) (rhs : cols R).
+Hypothesis eps_pos : 0 < eps.
+Hypothesis mm_lin : forall X j i, (j < C)%N -> (i < n)%N ->
+  cg2 AR (mm X) j i = \sum_(l < n) M j i l * cg2 AR X j l.
+Hypothesis M_sym : forall j i l, M j i l = M j l i.
+Hypothesis hj : (j < C)%N.
+Hypothesis rhs_nz : 0 < \sum_(i < n) cg2 AR rhs j i * cg2 AR rhs j i.
+Notation iter k := (st_iter AR Q C n mm (fun X => X) value shifts eps k (st_init AR Q C n (fun X => X) rhs)).
+Definition C11_no_breakdown (m : nat) : Prop :=
+  let w := lz_w AR C n mm value (iter m) in
+  eps <= Num.sqrt (sget AR (e_sum AR C n (e_mul AR C n w w)) j).
+
+Theorem C11_lanczos_orthonormal k a b :
+  (forall m, (m < k)%N -> C11_no_breakdown m) -> (a <= k)%N -> (b <= k)%N ->
+  \sum_(i < n) cg2 AR (zp1 (iter a)) j i * cg2 AR (zp1 (iter b)) j i = (a == b)%:R.
+Proof.
+move=> nb ha hb.
+have nb' : forall m, (m < k)%N -> no_breakdown mm value shifts eps M j rhs m.
+  by move=> m hm; apply/(no_breakdown_model Q eps_pos mm_lin hj); apply: nb.
+exact: (lanczos_orthonormal eps_pos mm_lin M_sym hj rhs_nz nb' ha hb).
+Qed.
+
+Theorem C11_minres_residual_norm k q :
+  (forall m, (m < k)%N -> C11_no_breakdown m) -> (q < Q)%N ->
+  let v := if value is Some a then a else 1 in
+  let x l := xget AR (sol (iter k)) q j l in
+  \sum_(i < n) (cg2 AR rhs j i - ((\sum_(l < n) M j i l * x l) * v + qget AR shifts q j * x i)) ^+ 2
+  = qget AR (scp (iter k)) q j ^+ 2.
+Proof.
+move=> nb hq.
+have nb' : forall m, (m < k)%N -> no_breakdown mm value shifts eps M j rhs m.
+  by move=> m hm; apply/(no_breakdown_model Q eps_pos mm_lin hj); apply: nb.
+exact: (residual_norm_is_scale eps_pos mm_lin M_sym hj rhs_nz hq nb').
+Qed.
+
+End Orthogonality.
 
 (* the hypotheses of C11_minres_scaling and C11_minres_output_residual are satisfiable: the 1 x 1 system
    1 * x = 1 with the identity closure, threshold 1, eps 1, scaling factor 2 *)
